@@ -278,6 +278,9 @@ def main(ctx: Ctx) -> int:
         at = max(1, min(rj["at"], len(tr["ev"])))
         e = tr["ev"][at - 1]
         feat = f"fmt={e['fmt']},code={e['code']}" if e["act"] == "Rerender" else f"step={e['act']},origin={tr['origin'].split()[0]}"
+        if e["act"] == "Read1" and "nrecog" in e.get("err", "") and any(n.startswith("G") and n[1:2].isupper() and not n.startswith("GRAIN")
+                                                                         for h in tr["net"] for n in h["r"] + h["p"]):
+            feat += ",surface_prefix=G"
         what = (f"re-rendered from the exported file: {e.get('rerendered')!r}  direct: {e.get('direct')!r}" if e["act"] == "Rerender"
                 else f"{e['act']}: {e.get('err') or [r2 for r2 in e.get('recs', [])][:2]}")
         ctx.violation(f"C18|{clause}|{feat}", f"{tr['origin']}: {what} : {rj['clauses']}", {"origin": tr["origin"], "header": tr["net"], "event": e,
